@@ -7,6 +7,7 @@ package main
 import (
 	"bytes"
 	"fmt"
+	"io"
 	"os"
 	"path/filepath"
 	"strings"
@@ -50,5 +51,73 @@ func runC17OS(c *Ctx) {
 			c.Oracle("FAIL os%dr writeread:os ReadFile after SafeWriteReader(%q): err=%v len=%d want %d", i, strings.TrimPrefix(fresh, dir), err, len(back), len(payload))
 		}
 	}
-	c.Extra["osfs"] = fmt.Sprintf("%d SafeWriteReader/ReadFile scenarios on OsFs with symlinked and unclean spellings (oracle only)", len(spellings))
+	// missing parent directories that the name only passes THROUGH ("a/../b/f" with neither a nor b
+	// there): the OS needs a to exist, WriteReader and SafeWriteReader create every directory named
+	m := 0
+	for i, how := range []string{"WriteReader", "SafeWriteReader"} {
+		for j, rel := range []string{"/p%d/../q%d/f", "/r%d/s/../../t%d/u/f", "/v%d/./w/f"} {
+			m++
+			name := dir + fmt.Sprintf(rel, i, i)
+			var err error
+			if how == "WriteReader" {
+				err = afero.WriteReader(fs, name, strings.NewReader("through"))
+			} else {
+				err = afero.SafeWriteReader(fs, name, strings.NewReader("through"))
+			}
+			c.Count("os.through-missing")
+			back, rerr := afero.ReadFile(fs, name)
+			if err != nil || rerr != nil || string(back) != "through" {
+				c.Oracle("FAIL os-thr%d-%d writeread:os:missing-parents-through-dotdot %s(OsFs, %q): %v; ReadFile = %q, %v", i, j, how, strings.TrimPrefix(name, dir), err, back, rerr)
+			}
+		}
+	}
+	c.Extra["osfs"] = fmt.Sprintf("%d SafeWriteReader/ReadFile scenarios on OsFs with symlinked and unclean spellings, %d writes whose missing parents are only passed through by \"..\" (oracle only)", len(spellings), m)
+}
+
+// Readers that know their size (strings.Reader, bytes.Reader, io.SectionReader) handed over after
+// a part was consumed: the file holds exactly the REST (oracle only)
+func runC17SizedReaders(c *Ctx, fs afero.Fs) {
+	n := 0
+	for _, total := range []int{1, 7, 32, 4096, 70000} {
+		seen := map[int]bool{}
+		for _, used := range []int{0, 1, total / 2, total} {
+			if used > total || seen[used] {
+				continue
+			}
+			seen[used] = true
+			payload := make([]byte, total)
+			for i := range payload {
+				payload[i] = byte('a' + i%23)
+			}
+			for k, mk := range []func() io.Reader{
+				func() io.Reader { r := strings.NewReader(string(payload)); r.Seek(int64(used), io.SeekStart); return r },
+				func() io.Reader { r := bytes.NewReader(payload); io.CopyN(io.Discard, r, int64(used)); return r },
+				func() io.Reader {
+					r := io.NewSectionReader(bytes.NewReader(payload), 0, int64(total))
+					r.Seek(int64(used), io.SeekStart)
+					return r
+				},
+			} {
+				for h, how := range []string{"WriteReader", "SafeWriteReader", "Afero.WriteReader"} {
+					n++
+					name := fmt.Sprintf("/sized/%d-%d-%d-%d", total, used, k, h)
+					var err error
+					switch how {
+					case "WriteReader":
+						err = afero.WriteReader(fs, name, mk())
+					case "SafeWriteReader":
+						err = afero.SafeWriteReader(fs, name, mk())
+					default:
+						err = (&afero.Afero{Fs: fs}).WriteReader(name, mk())
+					}
+					c.Count("sized." + how)
+					back, rerr := afero.ReadFile(fs, name)
+					if err != nil || rerr != nil || !bytes.Equal(back, payload[used:]) {
+						c.Oracle("FAIL sz%d writeread:sized-reader-partly-consumed %s with a reader kind %d of %d bytes of which %d were consumed: err=%v; ReadFile returns %d bytes, %v; want the remaining %d", n, how, k, total, used, err, len(back), rerr, total-used)
+					}
+				}
+			}
+		}
+	}
+	c.Extra["sized_readers"] = fmt.Sprintf("%d writes from partly consumed strings/bytes/section readers (oracle only)", n)
 }
